@@ -65,13 +65,17 @@ func main() {
 	per := []map[string]interface{}{}
 	complete := true
 	minDepth := depth
+	hung := false
 	for _, cfg := range cfgs {
 		for _, pol := range policies {
+			if hung {
+				break
+			}
 			cfg.Policy = pol
 			vrt.InactiveMapPolicy = pol
 			c := cfg
 			st := seq.BFS(seq.Config[*wld, op]{
-				Depth: depth, Workers: 16, Deadline: deadline,
+				Depth: depth, Workers: 16, Deadline: deadline, HangCPU: 20 * time.Second,
 				Build:   func(wi int, path []op) (*wld, string, string) { return build(c, path) },
 				Enabled: enabled,
 				Canon:   func(w *wld) string { return idxlib.DumpKey(w.Ix.VerifDump()) },
@@ -94,6 +98,10 @@ func main() {
 				minDepth = st.DepthCompleted
 			}
 			per = append(per, map[string]interface{}{"config": c, "states": st.States, "transitions": st.Transitions, "depth_completed": st.DepthCompleted, "complete": st.Complete})
+			hung = hung || st.Hung
+		}
+		if hung {
+			break // reported; every further configuration would wait for the same call again
 		}
 	}
 	// the same clauses one level up: the partition state machine (with the snapshot a replica restores) ...
@@ -101,12 +109,19 @@ func main() {
 	complete = complete && partCov["complete"].(bool)
 	states += partCov["states"].(int)
 	transitions += partCov["transitions"].(int)
+	maxDim := 130
+	if run.Thorough() {
+		maxDim = 520
+	}
+	wideCov := widePhase(run, maxDim)
+	transitions += wideCov["evaluations"].(int)
 	// ... and a search "on a whole dataset": C09's fan-out/fan-in scenarios on healthy clusters at bounds 0..1,
 	// counted here only for the per-item clauses C01 states (stored, true score and metadata, ascending, unique, <= k, non-empty)
 	run.RunPart("dataset-search-C09", os.Getenv("VERIF_BIN_C09"), c09Keys, c09Env...)
 	run.Assumptions = []string{
 		"ids {a,b,c,d}, vectors from a 6-point grid in R^2 (ties included), levels {0,1,2}, metadata {nil,{k:v1},{k:v2,j:w}}; queries: one stored point and two off-grid points; k in {0,1,2,5}",
 		"update = partition.updateValue's lookup/remove/merge/insert through the public API (the partition's own code path is exercised by C02/C04)",
+		"scores on wide vectors (directed): every dimension up to " + fmt.Sprint(maxDim) + ", every component position, all metrics - see wide_vectors",
 		"map iteration inside the index follows a fixed order policy (ascending / descending / rotated ids) so histories are replayable; other orders are not explored",
 	}
 	run.Finish(ev.Coverage{
@@ -120,6 +135,7 @@ func main() {
 		"min_depth_completed":           minDepth,
 		"per_config":                    per,
 		"partition_level":               partCov,
+		"wide_vectors":                  wideCov,
 		"outcome_classes":               outcomes,
 		"samples":                       samples.List(),
 		"exhaustive":                    complete,
@@ -141,6 +157,27 @@ func replay(path string) {
 	}
 	if b, err := os.ReadFile(path); err == nil && json.Unmarshal(b, &pf) == nil && len(pf.Replay.Ops) > 0 {
 		if _, k, d := pBuild(pf.Replay.Ops); k != "" {
+			fmt.Printf("VIOLATION property=%s replay=%s\n  %s: %s\n", ev.As("C01"), path, k, d)
+			os.Exit(1)
+		}
+		fmt.Println("replay: property held")
+		return
+	}
+	var wf struct {
+		Replay struct {
+			Wide *struct {
+				Space    string
+				Dim, Pos int
+			} `json:"wide"`
+		} `json:"replay"`
+	}
+	if b, err := os.ReadFile(path); err == nil && json.Unmarshal(b, &wf) == nil && wf.Replay.Wide != nil {
+		wd := wf.Replay.Wide
+		ones := make([]float32, wd.Dim)
+		for i := range ones {
+			ones[i] = 1
+		}
+		if k, d := wideCase(wd.Space, wd.Dim, wd.Pos, ones); k != "" {
 			fmt.Printf("VIOLATION property=%s replay=%s\n  %s: %s\n", ev.As("C01"), path, k, d)
 			os.Exit(1)
 		}
